@@ -569,6 +569,14 @@ SIZE_ARGS = {'arrayNewSize': [0], 'stringRepeat': [1], 'jsonStringify': [1]}
 
 
 def tame(fname, args):
+    if fname == 'datetimeNew':
+        # hour/minute/second/millisecond overflow is carried into `day` without bound and then walked month by month:
+        # datetimeNew(2020, 1, 1, 1e14) spins for hours in either spelling (not a spelling question) - keep the carry small
+        for ix in range(3, min(len(args), 7)):
+            if isinstance(args[ix], dict) and 'n' in args[ix] and abs(args[ix]['n']) > 10 ** 6:
+                args[ix] = N(10 ** 6 if args[ix]['n'] > 0 else -(10 ** 6))
+            if isinstance(args[ix], dict) and 'f' in args[ix] and args[ix]['f'] in ('1e300', 'inf', '-inf', 'nan'):
+                args[ix] = N(5)
     for ix in SIZE_ARGS.get(fname, ()):
         if ix < len(args) and isinstance(args[ix], dict) and 'n' in args[ix] and args[ix]['n'] > 3000:
             args[ix] = N(3000 if fname != 'jsonStringify' else 40)
